@@ -1,7 +1,7 @@
 (* Property C04 -- theorems only. *)
 From Coq Require Import Reals List Arith.
 From NV Require Import Base.RealExtra Gen.ModelFuncs Model.FitCore Proofs.WeightsP Proofs.FitCoreP
-     Proofs.ScalingP Model.FitOutcome Proofs.FitOutcomeP.
+     Proofs.ScalingP Model.FitOutcome Proofs.FitOutcomeP Model.FitRelative Proofs.FitRelativeP.
 Import ListNotations.
 Local Open Scope R_scope.
 
@@ -100,3 +100,31 @@ Example C04_outcome_inhabited :
   fit_outcome [true; true; false] s0 [good 1; mkP 2 3 (o 2); good 3]%nat
     = stored nat nat [true; true; false] (good 3%nat).
 Proof. split; reflexivity. Qed.
+
+(* the pass schedule of a contact-point-relative fit (Model/FitRelative.v: a
+   first pass over the whole segment, then up to three passes anchored at the
+   contact point fitted by the pass before, a refused pass ending the loop):
+   the repaired loop never reads a contact point that was not fitted (no
+   KeyError), for every earlier state, every first pass and every oracle of
+   later passes; it performs at most four passes and what it leaves behind is
+   the outcome model's result for those passes *)
+Theorem C04_relative_fit_never_raises : forall (P T : Type) seg (next : P -> pass P T) s first,
+  relative_fit seg next s first <> None.
+Proof. exact relative_fit_total. Qed.
+
+Theorem C04_relative_fit_is_outcome : forall (P T : Type) seg (next : P -> pass P T) s first,
+  relative_fit seg next s first =
+    Some (fit_outcome seg s (first :: rel_passes seg next 3 (one_pass seg s first))) /\
+  (length (rel_passes seg next 3 (one_pass seg s first)) <= 3)%nat.
+Proof.
+  intros. split; [apply relative_fit_is_outcome | apply rel_passes_length].
+Qed.
+
+(* D33 (repaired by fix 5a6a0b1): the loop as it was read the fitted contact
+   point whatever the pass before had done -- with a refused first pass on a
+   curve without earlier results that is the KeyError *)
+Theorem C04_unrepaired_loop_raised : forall (P T : Type) seg (next : P -> pass P T) s first,
+  f_fitted s = None ->
+  enough_points (p_varied first) (p_points first) = false ->
+  relative_fit_old seg next s first = None.
+Proof. exact old_loop_raises. Qed.
